@@ -422,12 +422,8 @@ class State:
 
     def is_iteration_counter(self, b, loc):
         """loc is a usize written only by `0` and by `loc + 1` steps that occur at most once per item of an in-memory iterator."""
-        for _ in range(4):
-            ws = b.assigns_to(loc)
-            if len(ws) == 1 and ws[0][1] != "term" and ws[0][2]["k"] == "use" and ws[0][2]["op"].get("k") in ("copy", "move") and not ws[0][2]["op"]["p"]:
-                loc = ws[0][2]["op"]["l"]
-            else:
-                break
+        from ..analysis import copy_root
+        loc = copy_root(b, loc)
         if b.local_ty(loc) != "usize":
             return False
         incs = []
